@@ -118,12 +118,11 @@ def grep_forbidden(modules):
     return sorted(set(hits))
 
 
-def audit(prop_module, theorems):
+def audit(prop_modules, theorems, name):
     """#print axioms for every listed theorem; returns (ok, per-theorem axioms, raw, problems)"""
     os.makedirs(os.path.join(LEAN, "LC", "Audit"), exist_ok=True)
-    name = prop_module.split(".")[-1]
     path = os.path.join(LEAN, "LC", "Audit", name + ".lean")
-    body = f"import {prop_module}\n" + "".join(f"#print axioms {t}\n" for t in theorems)
+    body = "".join(f"import {m}\n" for m in prop_modules) + "".join(f"#print axioms {t}\n" for t in theorems)
     if not os.path.exists(path) or open(path).read() != body:
         open(path, "w").write(body)
     with Lock("lake"):
